@@ -380,6 +380,8 @@ func randomCfg(rng *rand.Rand, format string) Cfg {
 // Random generates files with the real writers and reads them back under
 // layout changes and after damage.
 func Random(w *vt.W, rng *rand.Rand, n int, big bool) {
+	AllowI15 = true
+	defer func() { AllowI15 = false }()
 	formats := []string{"fasta", "fastq", "bed", "gff"}
 	for id := 0; id < n && atomic.LoadInt32(&Hangs) < MaxHangs; id++ {
 		format := formats[id%4]
@@ -505,7 +507,7 @@ func BigExact(w *vt.W, rng *rand.Rand) {
 					if format == "fastq" {
 						q := make([]int, n)
 						for i := range q {
-							q[i] = 1 + rng.Intn(40) // never '@' or '+' as a first letter at offset 33/64 matters not here
+							q[i] = 2 + rng.Intn(39) // never '@' or '+' as a first letter at offset 33/64 matters not here
 						}
 						last["quals"] = q
 					}
